@@ -320,6 +320,14 @@ func RunRetentionCase(seed int64, workDir string) *HistResult {
 				}
 			}
 		}
+		// no log directory without a reported job (jobs that were purged on any path must not leave their logs behind)
+		if entries, err := os.ReadDir(logRoot); err == nil {
+			for _, e := range entries {
+				if !kept[e.Name()] {
+					find("C12:logs-of-removed-job-left", "log directory %s exists after the save but no such job is reported (its job was purged without its logs)", e.Name())
+				}
+			}
+		}
 		for f, h := range logsBefore {
 			id := filepath.Dir(f)
 			if kept[id] {
